@@ -55,6 +55,17 @@ theorem writeChar_delim1 (c : Ctx) (s : Str) (quoted allowText : Bool) (hv : ¬(
       = writeQuoted c s (analyze s (!quoted) (!c.isCif1) LINE).length ((analyze s (!quoted) (!c.isCif1) LINE).delim.headD 0) := by
   unfold writeChar; simp [hv, hd]
 
+theorem writeChar_delim3 (c : Ctx) (s : Str) (quoted allowText : Bool) (hv : ¬(c.isCif1 = true ∧ validate11 s = false))
+    (hd : (analyze s (!quoted) (!c.isCif1) LINE).delimLength = 3) :
+    writeChar c s quoted allowText
+      = writeTripleQuoted c s (analyze s (!quoted) (!c.isCif1) LINE).lengthFirst (analyze s (!quoted) (!c.isCif1) LINE).lengthLast
+          ((analyze s (!quoted) (!c.isCif1) LINE).delim.headD 0) := by
+  unfold writeChar; simp [hv, hd]
+
+theorem analyze_delim (s : Str) (unq tri : Bool) (limit : Nat) :
+    (analyze s unq tri limit).delim = (Model.recommend s unq tri limit).units
+    ∧ (analyze s unq tri limit).delimLength = (Model.recommend s unq tri limit).units.length := ⟨rfl, rfl⟩
+
 theorem writeChar_delim2_refused (c : Ctx) (s : Str) (quoted allowText : Bool) (hv : ¬(c.isCif1 = true ∧ validate11 s = false))
     (hd : (analyze s (!quoted) (!c.isCif1) LINE).delimLength = 2)
     (hr : allowText = false ∨ ((analyze s (!quoted) (!c.isCif1) LINE).containsTextDelim = true ∧ c.isCif1 = true)) :
